@@ -951,6 +951,11 @@ def oracle(case, obs):
                 same = va[:2] == vb[:2]
                 if same and va[1] == 'ok':
                     x, y = float(va[2]), float(vb[2])
+                    if not (math.isfinite(x) and math.isfinite(y)):
+                        if repr(x) != repr(y):
+                            fails.append({'key': 'history-dependence:get_value',
+                                          'detail': '%s: variable %s edited model %s, fresh model %s' % (where, va[0], x, y)})
+                        continue
                     cond = ref['values'][va[0]][2] if wf and ref['values'].get(va[0], ('',))[0] == 'ok' else 0
                     same = close(x, Fraction(y), max(cond, 1000 * abs(Fraction(y)) + 1))
                 elif same and wf:
